@@ -139,7 +139,7 @@ var sharedInitPkgs = map[string]bool{
 	"unicode": true, "container/list": true, "slices": true, "cmp": true, "unicode/utf16": true,
 	"encoding/hex": true, "io/fs": true, "context": true, "math/rand": false, "hash/crc32": true,
 	"internal/oserror": true, "internal/bytealg": false, "encoding/json": false, "fmt": false, "time": false, "sync": false,
-	"bufio": true, "internal/itoa": true, "internal/stringslite": true, "iter": true, "maps": true,
+	"bufio": true, "hash/crc64": true, "internal/itoa": true, "internal/stringslite": true, "iter": true, "maps": true,
 }
 
 func (e *Engine) initAllowed(pkg *ssa.Package) bool {
